@@ -186,10 +186,55 @@ def r_land_exact(rep, f):
                     n_land += 1
                     if xv != xend and bad is None:
                         bad = (tag, xv, s_["node"])
+                    elif xv == xend and bad is None:
+                        # equal as real numbers - but is it a COPY of xend, or a sum x + (xend - x) that is rounded?
+                        # follow the assignments to the abscissa on this path back to their source expression
+                        key_ = hk.xkey
+                        prov = None
+                        for _ in range(4):
+                            evs_ = [ev for ev in sx.trace if ev.get("kind") == "assign" and ev.get("lv") and ev["lv"][0] == "key" and ev["lv"][1] == key_
+                                    and isinstance(ev.get("node"), dict) and (hk.main_loop is None or tast.contains(hk.main_loop, lambda z, n_=ev["node"]: z is n_))]
+                            if not evs_:
+                                break
+                            nd = evs_[-1]["node"]
+                            if nd.get("k") == "AssignOp":
+                                prov = ("computed", nd)
+                                break
+                            r_ = nd.get("r") or {}
+                            while r_.get("k") in ("DropTemps", "Paren", "Cast"):
+                                r_ = r_["e"]
+                            if r_.get("k") == "Path" and r_.get("name") == "xend":
+                                prov = ("copy", nd)
+                                break
+                            if r_.get("k") == "Path" and r_.get("res") == "local":
+                                key_ = r_["id"]
+                                lets_ = [l for l in tast.find(body["body"], lambda z: z.get("k") == "Let" and z["pat"].get("k") == "PBind" and z["pat"].get("id") == key_ and z.get("init") is not None)]
+                                has_assign = any(ev.get("kind") == "assign" and ev.get("lv") and ev["lv"][0] == "key" and ev["lv"][1] == key_ for ev in sx.trace)
+                                if lets_ and not has_assign:
+                                    i_ = lets_[0]["init"]
+                                    prov = ("copy", nd) if (i_.get("k") == "Path" and i_.get("name") == "xend") else ("computed", lets_[0])
+                                    break
+                                continue
+                            if r_.get("k") == "If":
+                                # x = if last { xend } else { x + h }: on the landing path the flagged branch is a copy
+                                arms_ = [r_["then"], r_.get("else")]
+                                tails_ = []
+                                for a_ in arms_:
+                                    while a_ is not None and a_.get("k") == "Block" and not a_.get("stmts"):
+                                        a_ = a_.get("tail") if a_.get("tail") is not None else a_.get("expr")
+                                    tails_.append(a_)
+                                if any(t_ is not None and t_.get("k") == "Path" and t_.get("name") == "xend" for t_ in tails_):
+                                    prov = ("copy", nd)
+                                    break
+                            prov = ("computed", nd)
+                            break
+                        if prov and prov[0] == "computed":
+                            bad = (tag, "the rounded sum `%s`" % tast.render(prov[1])[:50], prov[1])
         if bad:
-            rep.violation("R-LAND-EXACT", key, "the step clipped to end the integration advances x to %r - a rounded sum, not xend itself - while completion is decided by %s: "
-                          "when the sum lands one ulp short of xend the test fails, no further step is possible and the run ends with StepSizeTooSmall instead of Success "
-                          "(path variant %s)" % (bad[1], sorted(guards)[0], bad[0]), bad[2].get("sp") if isinstance(bad[2], dict) else None)
+            rep.violation("R-LAND-EXACT", key, "the step clipped to end the integration advances x to %s - a rounded sum, not xend itself - while completion is decided by %s: "
+                          "when the sum is off by an ulp the test fails: the solver then takes another step of rounding size (possibly against the direction of integration; naccpt exceeds the reported intervals) "
+                          "or cannot step at all and ends with StepSizeTooSmall instead of Success "
+                          "(path variant %s)" % (bad[1] if isinstance(bad[1], str) else repr(bad[1]), sorted(guards)[0], bad[0]), bad[2].get("sp") if isinstance(bad[2], dict) else None)
         elif n_land == 0:
             rep.inconc("R-LAND-EXACT", key, "completion is decided by %s but no path variant landing on xend was found" % sorted(guards)[0])
         else:
@@ -325,6 +370,18 @@ class CoverMon(mon.Monitor):
         self.fn, self.main, self.xid, self.timevars, self.stage_calls = fn, main, xid, timevars, stage_calls
 
     def is_landing_test(self, c):
+        # a named test: `let last = (x + h - xend) * posneg > 0.0; if last { .. }`
+        for _ in range(3):
+            if c.get("k") == "Unary" and c.get("op") == "Not":
+                c = c["e"]
+                continue
+            if c.get("k") == "Path" and c.get("res") == "local" and c.get("ty") == "bool":
+                lets = tast.find(self.main, lambda z: z.get("k") == "Let" and z["pat"].get("k") == "PBind" and z["pat"].get("id") == c.get("id") and z.get("init") is not None)
+                assigned = tast.find(self.main, lambda z: z.get("k") == "Assign" and z["l"].get("k") == "Path" and z["l"].get("id") == c.get("id"))
+                if len(lets) == 1 and not assigned:
+                    c = lets[0]["init"]
+                    continue
+            break
         if c.get("k") != "Binary" or c["op"] not in ("Gt", "Ge", "Lt", "Le", "Eq"):
             return False
         me = tast.contains(c, lambda z: z.get("k") == "Path" and z.get("name") == "xend")
